@@ -35,52 +35,56 @@ def math_part(pid, tier, d, verdict):
         return next(r for r in recs if r['case']['kind'] == kind and not r['act']['panic'] and pred(r))
     def can(rec, expect, fn):
         c = copy.deepcopy(rec); fn(c['act']); cans.append((c, expect))
-    b = first('remedian', lambda r: r['case']['base'] == 3 and r['case']['exp'] >= 2 and len(r['case']['xs']) >= 9 and len(set(r['case']['xs'][:9])) >= 4)
-    can(b, 'NoPanic', lambda a: a.update(panic='boom'))
-    can(b, 'RemedianRefusesOnlyWhenFull', lambda a: a['added'].__setitem__(0, False))
-    can(b, 'RemedianMedianObserved', lambda a: a['medians'].__setitem__(2, [99]))
-    can(b, 'RemedianMedianObserved', lambda a: a['medians'].__setitem__(2, []))
-    can(b, 'RemedianRankAtPowers', lambda a: a['medians'].__setitem__(8, [min(b['case']['xs'][:9])]))
-    can(b, 'RemedianAsModel', lambda a: a['medians'].__setitem__(4, [max(b['case']['xs'][:5]) if a['medians'][4] != [max(b['case']['xs'][:5])] else min(b['case']['xs'][:5])]))
-    st = first('stats', lambda r: len(set(r['case']['xs'])) >= 3)
-    can(st, 'StatsMean', lambda a: a.update(mean4=a['mean4'] + 3))
-    can(st, 'StatsVariance', lambda a: a.update(var4=a['var4'] + 3))
-    can(st, 'StatsDeviation', lambda a: a.update(sd3=a['sd3'] + 3))
-    can(st, 'StatsCv', lambda a: a.update(cv2=a['cv2'] + 3, cvSafe2=a['cvSafe2'] + 3))
-    rd = first('reldist', lambda r: r['act']['d3'] > 0)
-    can(rd, 'RelDistAsDefined', lambda a: a.update(d3=a['d3'] + 3, rev3=a['rev3'] + 3))
-    can(rd, 'RelDistSymmetric', lambda a: a.update(rev3=a['rev3'] + 1))
-    w = first('weighted', lambda r: 0 in r['case']['weights'] and len(r['case']['weights']) >= 2)
-    zero = w['case']['weights'].index(0)
-    can(w, 'WeightedPicksPositiveWeight', lambda a: a['draws'].__setitem__(5, zero))
-    pos = next(i for i, x in enumerate(w['case']['weights']) if x > 0)
-    other = next((i for i, x in enumerate(w['case']['weights']) if x > 0 and i != pos), pos)
-    w2 = first('weighted', lambda r: sum(1 for x in r['case']['weights'] if x > 0) >= 2)
-    keep = next(i for i, x in enumerate(w2['case']['weights']) if x > 0)
-    can(w2, 'WeightedReachesEveryPositiveWeight', lambda a: a.update(draws=[keep] * len(a['draws'])))
-    u = first('uniform', lambda r: r['case']['max'] > r['case']['min'])
-    can(u, 'UniformIntInClosedRange', lambda a: a.update(draws=[x if x != u['case']['max'] else u['case']['min'] for x in a['draws']]))
-    can(u, 'UniformIntInClosedRange', lambda a: a['draws'].__setitem__(0, u['case']['max'] + 1))
-    can(u, 'UniformRealInRange', lambda a: a.update(realsInside=False))
-    h = first('hit', lambda r: r['case']['p10'] == 0)
-    can(h, 'HitRespectsCertainty', lambda a: a.update(hits=1))
-    am = first('argmax', lambda r: len(r['case']['values']) >= 3 and len(set(r['case']['values'])) >= 2 and r['case']['values'].count(max(r['case']['values'])) >= 2)
-    worst = am['case']['values'].index(min(am['case']['values']))
-    can(am, 'ArgmaxPicksMaximum', lambda a: a['draws'].__setitem__(3, worst))
-    can(am, 'ArgmaxReachesEveryMaximum', lambda a: a.update(draws=[a['draws'][0]] * len(a['draws'])))
-    sm = first('sampling', lambda r: r['case']['n'] >= 5 and 2 <= r['case']['amount'] <= 4)
-    can(sm, 'SamplingIsSubsequenceOfRightSize', lambda a: a['runs'].__setitem__(0, a['runs'][0][:-1]))
-    can(sm, 'SamplingIsSubsequenceOfRightSize', lambda a: a['runs'].__setitem__(0, list(reversed(a['runs'][0]))))
-    rg = first('range', lambda r: r['case']['n'] >= 6 and r['case']['size'] == 3)
-    can(rg, 'RangeSamplingIsAlignedBlock', lambda a: a['runs'].__setitem__(0, [1, 2, 3]))
-    se = first('search', lambda r: len(r['act']['evaluated']) >= 3)
-    low = min(se['act']['evaluated'], key=lambda i: se['case']['data'][i])
-    can(se, 'SearchReturnsBestProbed', lambda a: a.update(found=low) if se['case']['data'][low] < se['case']['data'][a['found']] else a.update(found=-1))
-    can(se, 'SearchEvaluatesOnce', lambda a: a['evaluated'].append(a['evaluated'][0]))
-    no = first('noise', lambda r: r['case']['p10'] == 0 and r['case']['value'] != 0)
-    can(no, 'NoiseOffKeepsValue', lambda a: a['draws'].__setitem__(0, a['draws'][0] + 5))
-    n1 = first('noise', lambda r: r['case']['p10'] == 10 and r['case']['value'] == 7 and r['case']['addition'])
-    can(n1, 'NoiseWithinRange', lambda a: a['draws'].__setitem__(0, 7000 * 4))
+    math_skip = False
+    try:
+        b = first('remedian', lambda r: r['case']['base'] == 3 and r['case']['exp'] >= 2 and len(r['case']['xs']) >= 9 and len(set(r['case']['xs'][:9])) >= 4)
+        can(b, 'NoPanic', lambda a: a.update(panic='boom'))
+        can(b, 'RemedianRefusesOnlyWhenFull', lambda a: a['added'].__setitem__(0, False))
+        can(b, 'RemedianMedianObserved', lambda a: a['medians'].__setitem__(2, [99]))
+        can(b, 'RemedianMedianObserved', lambda a: a['medians'].__setitem__(2, []))
+        can(b, 'RemedianRankAtPowers', lambda a: a['medians'].__setitem__(8, [min(b['case']['xs'][:9])]))
+        can(b, 'RemedianAsModel', lambda a: a['medians'].__setitem__(4, [max(b['case']['xs'][:5]) if a['medians'][4] != [max(b['case']['xs'][:5])] else min(b['case']['xs'][:5])]))
+        st = first('stats', lambda r: len(set(r['case']['xs'])) >= 3)
+        can(st, 'StatsMean', lambda a: a.update(mean4=a['mean4'] + 3))
+        can(st, 'StatsVariance', lambda a: a.update(var4=a['var4'] + 3))
+        can(st, 'StatsDeviation', lambda a: a.update(sd3=a['sd3'] + 3))
+        can(st, 'StatsCv', lambda a: a.update(cv2=a['cv2'] + 3, cvSafe2=a['cvSafe2'] + 3))
+        rd = first('reldist', lambda r: r['act']['d3'] > 0)
+        can(rd, 'RelDistAsDefined', lambda a: a.update(d3=a['d3'] + 3, rev3=a['rev3'] + 3))
+        can(rd, 'RelDistSymmetric', lambda a: a.update(rev3=a['rev3'] + 1))
+        w = first('weighted', lambda r: 0 in r['case']['weights'] and len(r['case']['weights']) >= 2)
+        zero = w['case']['weights'].index(0)
+        can(w, 'WeightedPicksPositiveWeight', lambda a: a['draws'].__setitem__(5, zero))
+        pos = next(i for i, x in enumerate(w['case']['weights']) if x > 0)
+        other = next((i for i, x in enumerate(w['case']['weights']) if x > 0 and i != pos), pos)
+        w2 = first('weighted', lambda r: sum(1 for x in r['case']['weights'] if x > 0) >= 2)
+        keep = next(i for i, x in enumerate(w2['case']['weights']) if x > 0)
+        can(w2, 'WeightedReachesEveryPositiveWeight', lambda a: a.update(draws=[keep] * len(a['draws'])))
+        u = first('uniform', lambda r: r['case']['max'] > r['case']['min'])
+        can(u, 'UniformIntInClosedRange', lambda a: a.update(draws=[x if x != u['case']['max'] else u['case']['min'] for x in a['draws']]))
+        can(u, 'UniformIntInClosedRange', lambda a: a['draws'].__setitem__(0, u['case']['max'] + 1))
+        can(u, 'UniformRealInRange', lambda a: a.update(realsInside=False))
+        h = first('hit', lambda r: r['case']['p10'] == 0)
+        can(h, 'HitRespectsCertainty', lambda a: a.update(hits=1))
+        am = first('argmax', lambda r: len(r['case']['values']) >= 3 and len(set(r['case']['values'])) >= 2 and r['case']['values'].count(max(r['case']['values'])) >= 2)
+        worst = am['case']['values'].index(min(am['case']['values']))
+        can(am, 'ArgmaxPicksMaximum', lambda a: a['draws'].__setitem__(3, worst))
+        can(am, 'ArgmaxReachesEveryMaximum', lambda a: a.update(draws=[a['draws'][0]] * len(a['draws'])))
+        sm = first('sampling', lambda r: r['case']['n'] >= 5 and 2 <= r['case']['amount'] <= 4)
+        can(sm, 'SamplingIsSubsequenceOfRightSize', lambda a: a['runs'].__setitem__(0, a['runs'][0][:-1]))
+        can(sm, 'SamplingIsSubsequenceOfRightSize', lambda a: a['runs'].__setitem__(0, list(reversed(a['runs'][0]))))
+        rg = first('range', lambda r: r['case']['n'] >= 6 and r['case']['size'] == 3)
+        can(rg, 'RangeSamplingIsAlignedBlock', lambda a: a['runs'].__setitem__(0, [1, 2, 3]))
+        se = first('search', lambda r: len(r['act']['evaluated']) >= 3)
+        low = min(se['act']['evaluated'], key=lambda i: se['case']['data'][i])
+        can(se, 'SearchReturnsBestProbed', lambda a: a.update(found=low) if se['case']['data'][low] < se['case']['data'][a['found']] else a.update(found=-1))
+        can(se, 'SearchEvaluatesOnce', lambda a: a['evaluated'].append(a['evaluated'][0]))
+        no = first('noise', lambda r: r['case']['p10'] == 0 and r['case']['value'] != 0)
+        can(no, 'NoiseOffKeepsValue', lambda a: a['draws'].__setitem__(0, a['draws'][0] + 5))
+        n1 = first('noise', lambda r: r['case']['p10'] == 10 and r['case']['value'] == 7 and r['case']['addition'])
+        can(n1, 'NoiseWithinRange', lambda a: a['draws'].__setitem__(0, 7000 * 4))
+    except StopIteration:
+        math_skip = True
     fj = os.path.join(d, 'math-judge.ndjson')
     common.write_ndjson(fj, recs + [c[0] for c in cans])
     jr = common.tlc('JudgeMath', env={'RECS': fj}, workers=1, name=pid + '-judgem', timeout=6000, xmx='8g')
@@ -102,7 +106,7 @@ def math_part(pid, tier, d, verdict):
             continue
         verdict.add('C18/%s/%s' % (name, recs[i - 1]['case']['kind']), 'case %s: %s -> %s' % (rid, json.dumps(cases[i - 1]['case'])[:250], json.dumps(res[i - 1])[:350]), {'case': cases[i - 1]['case'], 'observed': res[i - 1]})
     return {'model_states_remedian': mc.distinct, 'cases_by_kind': dict(collections.Counter(r['case']['kind'] for r in recs)), 'judged': len(recs), 'judge_states': jr.distinct,
-            'remedian_estimates_differing_from_model': differs, 'canaries_rejected': len(cans)}
+            'remedian_estimates_differing_from_model': differs, 'canaries_rejected': len(cans), 'canaries_skipped': math_skip}
 
 
 def run(pid, tier):
@@ -137,30 +141,34 @@ def run(pid, tier):
     cans = []
     def first(kind, pred=lambda r: True):
         return next(r for r in recs if r['kind'] == kind and not r['act']['panic'] and pred(r))
-    b = first('slot-exact', lambda r: r['case']['exp']['n'] >= 3)
-    c = copy.deepcopy(b); c['act']['b24K'] += 50; cans.append((c, 'SlotAsModel'))
-    c = copy.deepcopy(b); c['act']['sK'] -= 10000; cans.append((c, 'SlotAsModel'))
-    c = copy.deepcopy(b); c['act']['panic'] = 'boom'; cans.append((c, 'NoPanic'))
-    g = first('slot-palette')
-    for flag, name in (('finite', 'SlotFinite'), ('shapePositive', 'SlotShapePositive'), ('ratePositive', 'SlotRatePositive'), ('varianceOk', 'SlotVarianceNonNegative'), ('meanInHull', 'SlotMeanInHull'), ('sampleOk', 'SlotSamplingWorks')):
-        c = copy.deepcopy(g); c['act'][flag] = False; cans.append((c, name))
-    m = first('minvar', lambda r: any(r['case']['exp']) and not any(r['case']['tie']))
-    c = copy.deepcopy(m); c['act']['fired'] = [not x for x in c['act']['fired']]; cans.append((c, 'MinVariationAsModel'))
-    e = first('estimate')
-    c = copy.deepcopy(e); c['act']['estimates'][0]['inRange'] = False; cans.append((c, 'EstimateInRange'))
-    c = copy.deepcopy(e); c['act']['estimates'][1]['estK'] += 500; cans.append((c, 'EstimateAsModel'))
-    px = first('proximity', lambda r: r['act']['firedBest'])
-    c = copy.deepcopy(px); c['act']['firedBest'] = False; cans.append((c, 'ProximityAsDefined'))
-    cp = first('composite', lambda r: len(r['case']['limits']) >= 2)
-    c = copy.deepcopy(cp); c['act']['estimates'][2]['fires'] = not c['act']['estimates'][2]['fires']; cans.append((c, 'CompositeAsModel'))
-    c = copy.deepcopy(cp); c['act']['estimates'][1]['inRange'] = False; cans.append((c, 'CompositeAsModel'))
-    mt = first('maxtime', lambda r: r['act']['waited'])
-    c = copy.deepcopy(mt); c['act']['firedAfter'] = False; cans.append((c, 'MaxTimeEstimateSane'))
-    c = copy.deepcopy(mt); c['act']['inRange'] = False; cans.append((c, 'MaxTimeEstimateSane'))
-    y = first('dyn')
-    c = copy.deepcopy(y); c['act']['picksInRange'] = False; cans.append((c, 'SelectorPicksConfigured'))
-    c = copy.deepcopy(y); c['act']['rewardsFinite'] = False; cans.append((c, 'RewardsFinite'))
-    c = copy.deepcopy(y); c['act']['rewardsInRange'] = False; cans.append((c, 'RewardsInRange'))
+    can_skip = False
+    try:
+        b = first('slot-exact', lambda r: r['case']['exp']['n'] >= 3)
+        c = copy.deepcopy(b); c['act']['b24K'] += 50; cans.append((c, 'SlotAsModel'))
+        c = copy.deepcopy(b); c['act']['sK'] -= 10000; cans.append((c, 'SlotAsModel'))
+        c = copy.deepcopy(b); c['act']['panic'] = 'boom'; cans.append((c, 'NoPanic'))
+        g = first('slot-palette')
+        for flag, name in (('finite', 'SlotFinite'), ('shapePositive', 'SlotShapePositive'), ('ratePositive', 'SlotRatePositive'), ('varianceOk', 'SlotVarianceNonNegative'), ('meanInHull', 'SlotMeanInHull'), ('sampleOk', 'SlotSamplingWorks')):
+            c = copy.deepcopy(g); c['act'][flag] = False; cans.append((c, name))
+        m = first('minvar', lambda r: any(r['case']['exp']) and not any(r['case']['tie']))
+        c = copy.deepcopy(m); c['act']['fired'] = [not x for x in c['act']['fired']]; cans.append((c, 'MinVariationAsModel'))
+        e = first('estimate')
+        c = copy.deepcopy(e); c['act']['estimates'][0]['inRange'] = False; cans.append((c, 'EstimateInRange'))
+        c = copy.deepcopy(e); c['act']['estimates'][1]['estK'] += 500; cans.append((c, 'EstimateAsModel'))
+        px = first('proximity', lambda r: r['act']['firedBest'])
+        c = copy.deepcopy(px); c['act']['firedBest'] = False; cans.append((c, 'ProximityAsDefined'))
+        cp = first('composite', lambda r: len(r['case']['limits']) >= 2)
+        c = copy.deepcopy(cp); c['act']['estimates'][2]['fires'] = not c['act']['estimates'][2]['fires']; cans.append((c, 'CompositeAsModel'))
+        c = copy.deepcopy(cp); c['act']['estimates'][1]['inRange'] = False; cans.append((c, 'CompositeAsModel'))
+        mt = first('maxtime', lambda r: r['act']['waited'])
+        c = copy.deepcopy(mt); c['act']['firedAfter'] = False; cans.append((c, 'MaxTimeEstimateSane'))
+        c = copy.deepcopy(mt); c['act']['inRange'] = False; cans.append((c, 'MaxTimeEstimateSane'))
+        y = first('dyn')
+        c = copy.deepcopy(y); c['act']['picksInRange'] = False; cans.append((c, 'SelectorPicksConfigured'))
+        c = copy.deepcopy(y); c['act']['rewardsFinite'] = False; cans.append((c, 'RewardsFinite'))
+        c = copy.deepcopy(y); c['act']['rewardsInRange'] = False; cans.append((c, 'RewardsInRange'))
+    except StopIteration:
+        can_skip = True
     fj = os.path.join(d, 'judge.ndjson')
     common.write_ndjson(fj, recs + [c[0] for c in cans])
     jr = common.tlc('JudgeAdaptive', env={'RECS': fj}, workers=1, name=pid + '-judge', timeout=6000, xmx='8g')
@@ -185,6 +193,8 @@ def run(pid, tier):
         verdict.add('C18/%s/%s' % (name, recs[i - 1]['kind']), 'case %s: %s -> %s' % (rid, json.dumps(cases[i - 1]['case'])[:250], json.dumps(r)[:350]), {'case': cases[i - 1]['case'], 'observed': r})
     math = math_part(pid, tier, d, verdict)
     rc = verdict.finish()
+    if (can_skip or math['canaries_skipped']) and rc == 0:
+        raise ToolError('no base record for the vacuity canaries and no violation reported')
     kinds = collections.Counter(r['kind'] for r in recs)
     dyn = [r for r in res if r['kind'] == 'dyn' and not r.get('panic')]
     cov = {'states': mc.distinct + jr.distinct + math['model_states_remedian'] + math['judge_states'], 'transitions': mc.generated + jr.generated, 'traces_validated_against_impl': len(recs) + math['judged'], 'evaluations': len(recs) + math['judged'],
